@@ -99,6 +99,17 @@ def _z3_once(name, smt2, input_names, timeout_s):
         if isinstance(smt2, tuple):
             idx, ranged = smt2
             o = _OBLS[idx]
+            if o.pc_lite is not None and not ranged:
+                s0 = z3.Solver()
+                s0.set("timeout", int(min(timeout_s, 4) * 1000))
+                for c in o.pc_lite:
+                    s0.add(c)
+                s0.add(z3.Not(o.goal))
+                if s0.check() == z3.unsat:
+                    res["result"] = "unsat"
+                    res["reason"] = "proved from the quantifier-free hypotheses and explicit instances"
+                    res["time_s"] = round(time.time() - t0, 3)
+                    return res
             s = z3.Solver()
             s.set("timeout", int(timeout_s * 1000))
             for c in o.pc:
